@@ -100,6 +100,16 @@ func installParsers(ps map[int]string) func() {
 	}
 }
 
+// withPre: the same case on a REUSED builder -- an earlier generation (the same documents under other ids) was
+// added and built, then the builder was Reset; field configuration must survive, nothing else may
+func withPre(c eCase) eCase {
+	c.Pre = nil
+	for _, d := range c.Docs {
+		c.Pre = append(c.Pre, eDoc{ID: d.ID/2 + 100000, Cons: d.Cons})
+	}
+	return c
+}
+
 func newBuilder(c *eCase, extra ...be.BuilderOpt) *be.IndexerBuilder {
 	opts := []be.BuilderOpt{}
 	switch c.Policy {
